@@ -337,7 +337,8 @@ def run(ctx):
                 'load vectors / inner products / integrals with polynomial data in 1-3 dims with and without (bilinear, orientation-reversing) geometry; '
                 'integer matrices through det_and_inv/inverses/determinants; call HISTORIES: per knot-vector pair on a common mesh 3-5 calls in one process mixing weighted/unweighted 1-D forms, '
                 'asym forms, 2-D mass/stiffness, inner_products/integrate, load_vector, each compared with the stateless model of that call, with a bitwise monitor of the '
-                'arrays returned by make_iterated_quadrature/gauss_rule.  non-trivial = more than one span or degree >= 1; distinct by request line')
+                'arrays returned by make_iterated_quadrature/gauss_rule; fast-assembler histories: 3-6 mass_fast/stiffness_fast calls on spaces of different sizes '
+                '(2-D and small 3-D), each sequence in one fresh process, every result vs the Gauss assembler at 100*tol*max|A|.  non-trivial = more than one span or degree >= 1; distinct by request line')
     req, exp, meta = [], [], []
 
     def add(r, thunk, m):
@@ -1309,6 +1310,80 @@ def run(ctx):
                         oracle_fail('gal-oracle:' + nm, '%s differs from the Gauss assembler by %r (> 100*tol*max|A|) in %dD' % (nm, float(err), dim), case)
         except Exception as ex:
             oracle_fail('gal-oracle:fast', 'fast assembler raised %s: %s' % (type(ex).__name__, str(ex)[:200]), {'dim': dim})
+    # ---- fast assemblers: call HISTORIES, each in one fresh process (the reported sequence is the complete history) -------------
+    # sequences of 3-6 mass_fast/stiffness_fast calls on spaces of different sizes (small after large, large after small, same call
+    # repeated), 2-D and a small 3-D; every result within 100*tol*max|A| of the Gauss assembler, as in the single-call check.
+    import json as _json
+    hist_script = (
+        "import sys, json\nimport numpy as np\nfrom pyiga import bspline, assemble, geometry\n"
+        "seq = json.loads(sys.argv[1]); out = []\n"
+        "def mkgeo(nm):\n"
+        "    np.random.seed(0)\n"
+        "    return {'bspline_quarter_annulus': geometry.bspline_quarter_annulus, 'quarter_annulus': geometry.quarter_annulus,\n"
+        "            'perturbed_square': lambda: geometry.perturbed_square(num_intervals=3, noise=0.02), 'twisted_box': geometry.twisted_box}[nm]()\n"
+        "for c in seq:\n"
+        "    kvs = tuple(bspline.make_knots(p, 0.0, 1.0, n) for p, n in zip(c['ps'], c['ns']))\n"
+        "    g = mkgeo(c['geo'])\n"
+        "    try:\n"
+        "        A = getattr(assemble, c['fn'])(kvs, geo=g, tol=c['tol'], verbose=0).toarray()\n"
+        "        B = getattr(assemble, c['fn'][:-5])(kvs, geo=g).toarray()\n"
+        "        out.append([float(np.abs(A - B).max()) if A.shape == B.shape else float('inf'), float(np.abs(B).max())])\n"
+        "    except Exception as ex:\n"
+        "        out.append(['%s: %s' % (type(ex).__name__, str(ex)[:100]), 1.0])\n"
+        "print('RES ' + json.dumps(out))\n")
+
+    def fast_call(dim, small=None):
+        if dim == 3:
+            return {'fn': ('mass_fast', 'stiffness_fast')[int(orng.integers(0, 2))], 'ps': [int(orng.integers(1, 3)) for _ in range(3)],
+                    'ns': [int(orng.integers(1, 4)) for _ in range(3)], 'geo': 'twisted_box', 'tol': 1e-10}
+        hi = 4 if small else 8
+        lo = 1 if small is not False else 4
+        return {'fn': ('mass_fast', 'stiffness_fast')[int(orng.integers(0, 2))], 'ps': [int(orng.integers(1, 4)) for _ in range(2)],
+                'ns': [int(orng.integers(lo, hi)) for _ in range(2)],
+                'geo': ('bspline_quarter_annulus', 'quarter_annulus', 'perturbed_square')[int(orng.integers(0, 3))], 'tol': 1e-10}
+
+    nfh = 8 if quick else 60
+    for it in range(nfh):
+        kind = it % 4
+        if kind == 0:        # same small call repeated after a few small assemblies
+            x = fast_call(2, small=True); x['fn'] = 'stiffness_fast'
+            seq = [x] + [dict(fast_call(2, small=True), fn='mass_fast') for _ in range(int(orng.integers(2, 5)))] + [x]
+        elif kind == 1:      # small after large
+            seq = [fast_call(2, small=False) for _ in range(int(orng.integers(1, 3)))] + [fast_call(2, small=True) for _ in range(int(orng.integers(2, 5)))]
+        elif kind == 2:      # large after small
+            seq = [fast_call(2, small=True) for _ in range(int(orng.integers(2, 5)))] + [fast_call(2, small=False) for _ in range(int(orng.integers(1, 3)))]
+        else:                # mixed with a small 3-D
+            seq = [fast_call(2, small=None) for _ in range(int(orng.integers(2, 4)))]
+            seq.insert(int(orng.integers(0, len(seq) + 1)), fast_call(3))
+            seq.append(dict(seq[0]))
+        seq = seq[:6]
+        try:
+            pr = subprocess.run([PY, '-W', 'ignore', '-c', hist_script, _json.dumps(seq)], env=env, cwd='/tmp',
+                                stdout=subprocess.PIPE, stderr=subprocess.PIPE, text=True, timeout=900)
+            line = [l for l in pr.stdout.split('\n') if l.startswith('RES ')]
+            res = _json.loads(line[0][4:]) if line else None
+            detail = '' if line else pr.stderr[-300:]
+        except Exception as ex:
+            res, detail = None, '%s: %s' % (type(ex).__name__, ex)
+        ctx.count('fast-assembler histories (fresh process each)')
+        ctx.count('fast-assembler history calls', len(seq))
+        nor += len(seq)
+        if res is None or len(res) != len(seq):
+            oracle_fail('gal-hist:fast-runner', 'fast-assembler history did not complete: %s' % detail, {'sequence': seq})
+            continue
+        for k, ((err, mx), c) in enumerate(zip(res, seq)):
+            okc = not isinstance(err, str) and err <= 100 * c['tol'] * max(1.0, mx)
+            if not okc:
+                first_same = next((j for j in range(k) if seq[j] == c), None)
+                extra = ''
+                if first_same is not None and not isinstance(res[first_same][0], str) and res[first_same][0] <= 100 * c['tol'] * max(1.0, mx):
+                    extra = ' (the identical call #%d earlier in the same process was correct: error %r)' % (first_same + 1, res[first_same][0])
+                ctx.violation('gal-hist:' + c['fn'],
+                              'call #%d of the fresh-process sequence %s: %s(degrees %s, spans %s, geo=%s, tol=%g) differs from the Gauss assembler by %r (max|A| = %r > 100*tol*max|A|)%s'
+                              % (k + 1, [cc['fn'] for cc in seq[:k + 1]], c['fn'], c['ps'], c['ns'], c['geo'], c['tol'], err, mx, extra),
+                              {'sequence (run in this order in one fresh process; make_knots(p,0,1,n) per axis)': seq[:k + 1],
+                               'errors_per_call': res[:k + 1]}, True)
+                break
     ctx.extra['oracle_cross_checks'] = nor
     ctx.notes.append('mass_fast/stiffness_fast (C++ ACA) are compared with the Gauss assembler at 100*tol*max|A| only (float-level evidence, no Lean statement)')
 
